@@ -510,6 +510,17 @@ def _shared_state(ctx, prog, R):
             if tgt is None:
                 continue
             is_g = (isinstance(tgt, ast.Name) and tgt.id in gnames) or (isinstance(tgt, ast.Call) and isinstance(tgt.func, ast.Name) and tgt.func.id in ("globals", "vars"))
+            if is_g and isinstance(node, ast.Assign) and len(node.targets) == 1:
+                # the exec of the options loader spelled as an item assignment: an unconditional (re)binding that runs
+                # before every eval of the same call is value-neutral across instances, exactly like the exec
+                cfg = cfg_of(fn)
+                evals = [n for n in ast.walk(fn.node) if isinstance(n, ast.Call) and isinstance(n.func, ast.Name) and n.func.id == "eval"]
+                lp = _enclosing_loop(prog, node)
+                guarded = any(isinstance(a, (ast.If, ast.Try, ast.While)) for a in prog.ancestors(node) if a is not lp and a is not fn.node and (lp is None or any(x is a for x in ast.walk(lp))))
+                ok = bool(evals) and not guarded and all(cfg.dominates(cfg.head_of(lp).id, cfg.node_of(e).id) if lp is not None else cfg.dominates(cfg.node_of(node).id, cfg.node_of(e).id) for e in evals)
+                if ok:
+                    ctx.ok(fn, node, "binding in module globals is re-made before every eval in the same call (value-neutral across instances)")
+                    continue
             if is_g:
                 ctx.fail(fn, node, "the module namespace is written directly (globals()): the binding survives into later instances and is not re-initialised per load", construct=f"write into globals() in {fn.short}")
 
